@@ -82,7 +82,15 @@ def ensure_facts(repo=REPO, verbose=True):
         build_driver()
     key = tree_hash(repo)
     d = os.path.join(CACHE, key)
-    lock = open(os.path.join(CACHE, "lock"), "w")
+    if os.path.exists(os.path.join(d, "OK")):
+        # cached facts for exactly this tree: no lock needed (entries are complete once OK exists; pruning spares recent ones)
+        try:
+            os.utime(d, None)
+        except OSError:
+            pass
+        return d
+    # one lock per tree state: different trees extract concurrently, the same tree only once
+    lock = open(os.path.join(CACHE, "lock." + key), "w")
     fcntl.flock(lock, fcntl.LOCK_EX)
     try:
         ok = os.path.exists(os.path.join(d, "OK"))
@@ -112,8 +120,12 @@ def ensure_facts(repo=REPO, verbose=True):
             # prune old cache entries (keep 6 most recent)
             ents = [e for e in os.listdir(CACHE) if os.path.isdir(os.path.join(CACHE, e))]
             ents.sort(key=lambda e: os.stat(os.path.join(CACHE, e)).st_mtime, reverse=True)
-            for e in ents[12:]:
+            for e in ents[40:]:
                 shutil.rmtree(os.path.join(CACHE, e), ignore_errors=True)
+                try:
+                    os.remove(os.path.join(CACHE, "lock." + e))
+                except OSError:
+                    pass
     finally:
         fcntl.flock(lock, fcntl.LOCK_UN)
         lock.close()
